@@ -48,7 +48,9 @@ ASSUMPTIONS = [
 
 def generate(seed, index, tier):
     rng = scenarios.derive_rng(seed, ID, index)
-    h = history.gen_history(rng)
+    # (every third history lets its apps share their evolution labels)
+    h = history.gen_history(rng, shared_labels={2: True, 5: 'offset'}.get(
+        index % 6, False))
     n = proj.n_versions(h['project']) - 1
     h['start'] = rng.randrange(0, n)
     h['driver'] = rng.choice(['command', 'command', 'api', 'migrate'])
